@@ -108,7 +108,8 @@ fn random_name(rng: &mut Rng) -> String {
 
 /// Growth-and-sweep histories: tables grown well past small sizes, then every name tried again.
 fn generate_bulk(rng: &mut Rng, thorough: bool) -> History {
-    let max = if thorough { 300 } else { 90 };
+    // mostly tens of names; rarely (thorough) well over a thousand
+    let max = if thorough && rng.chance(1, 20) { 1500 } else if thorough { 300 } else { 90 };
     let n = 10 + rng.usize(max);
     let mut uid = 5000;
     let mut next = || {
